@@ -141,6 +141,44 @@ def scan(ctx, crate, E):
            "rewrite() walks a node's actions front to back (%s)" % " <- ".join(chain) if not extra else
            "rewrite() does not walk the actions in the order they were added (%s in the iterator "
            "chain)" % ", ".join(extra))
+    # no early exit: the only ways out of the action loop are exhaustion (None arm), descending
+    # along a matching edge (back to the enclosing loop's header) and returning a result. A
+    # `break` lands in the code that follows the loop while later actions of the node - e.g. the
+    # Rewrite of a shorter rule stored behind a transition - are still unvisited.
+    sw = fa.term(nb).get("t")
+    st = fa.term(sw)
+    some_t = [tg for v, tg in zip(st["vals"], st["targets"]) if v == 1][0]
+    none_t = ([tg for v, tg in zip(st["vals"], st["targets"]) if v == 0] or [st["otherwise"]])[0]
+    # header of the enclosing loop: the farthest dominator of the inner header that lies on a
+    # cycle through it
+    outer = None
+    for d in fa.dominators().get(nb, ()):
+        if d != nb and d in fa.reachable(nb) and nb in fa.reachable(d):
+            if outer is None or fa.dominates(d, outer):
+                outer = d
+    if outer is None:
+        raise EngineError("FIRSTMATCH-SCAN: the enclosing loop of the action scan was not found")
+    # natural body of the inner loop
+    fwd = fa.reachable(some_t, avoid={nb})
+    body = {b for b in fwd if nb in fa.reachable(b, avoid={outer})}
+    after = fa.reachable(none_t, avoid={outer})
+    early = []
+    for b in sorted(body):
+        if fa.blocks[b].get("cleanup"):
+            continue
+        for x in fa.succs(b):
+            if x in body or x == nb or x == outer or fa.blocks[x].get("cleanup"):
+                continue                      # stays inside / next action / continue 'outer
+            # follow empty trampolines; `continue 'outer` lands on the outer header, a `break`
+            # lands in the code that follows the loop (where the exhausted scan also arrives)
+            if fa.reachable(x, avoid={nb, outer}) & after:
+                early.append((fa.loc(b), x))
+    ctx.ob("FIRSTMATCH-SCAN", "%s|no-early-exit" % P_REW, not early, fa.loc(nb),
+           "the scan of a node's actions ends only by exhaustion, by descending along a matching "
+           "edge or by returning a rewrite" if not early else
+           "the scan of a node's actions can stop early (jump out of the loop at %s): actions stored "
+           "after that point - such as the rewrite of a shorter rule registered later - are never "
+           "tried" % early[0][0])
     # the Rewrite arm returns: from the block that builds the result there is no way back to the loop
     rets = [b for b in fa.live_blocks() if fa.term(b)["k"] == "return"]
     somes = []
@@ -214,6 +252,18 @@ def fallback(ctx, crate, E):
                 sw = (sb, st)
                 break
         if sw is None:
+            # the Option is consumed by a defaulting combinator instead of a match
+            consumer = None
+            for cb, ct in fa.calls():
+                if ct["args"] and fa.origin(ct["args"][0])[:2] == ("call", b):
+                    consumer = sorted(_names(ct))[0]
+            if consumer in ("unwrap_or_default", "unwrap_or", "unwrap_or_else", "map_or", "map_or_else", "unwrap"):
+                ctx.ob("FALLBACK", "%s|rewrite-call|%d" % (P_EXT, k), False, fa.loc(b),
+                       "the result of rewrite() is consumed by %s: when no rule matches, the "
+                       "features are replaced (or the call panics) instead of being used unchanged"
+                       % consumer)
+                k += 1
+                continue
             raise EngineError("FALLBACK: the match on rewrite()'s result was not found at %s" % fa.loc(b))
         sb, st = sw
         arms = dict(zip(st["vals"], st["targets"]))
